@@ -99,7 +99,7 @@ pub fn addr(port: u16) -> SocketAddr { SocketAddr::new(IpAddr::V4(Ipv4Addr::LOCA
 pub fn run_scripted<T>(script: Script, show: impl Fn(&T) -> String, f: impl FnOnce() -> GDResult<T>) -> String {
     hook::install(script);
     crate::alloc::reset();
-    let r = catch_unwind(AssertUnwindSafe(f));
+    let r = silenced(|| catch_unwind(AssertUnwindSafe(f)));
     let (maxreq, peak) = crate::alloc::stats();
     let tr = hook::uninstall();
     crate::cases::SIDE.with(|s| s.borrow_mut().push_str(&format!("alloc={maxreq},{peak};")));
@@ -163,4 +163,77 @@ pub fn case_quake(rd: &mut Rd) -> R<String> {
         2 => run_scripted(script, |r: &quake::Response<quake::two::Player>| canon(r), || quake::two::query(&addr(port), ts)),
         _ => run_scripted(script, |r: &quake::Response<quake::two::Player>| canon(r), || quake::three::query(&addr(port), ts)),
     })
+}
+
+
+/// Run f with file descriptor 1 pointing at /dev/null: library code that
+/// prints to stdout must not corrupt the result protocol. Returns f's value and
+/// records in the side channel whether anything was printed.
+pub fn silenced<T>(f: impl FnOnce() -> T) -> T {
+    use std::io::Write;
+    use std::os::unix::io::AsRawFd;
+    let _ = std::io::stdout().flush();
+    let tmp = std::env::temp_dir().join(format!("gd-harness-stdout-{}", std::process::id()));
+    let file = std::fs::OpenOptions::new().create(true).write(true).truncate(true).open(&tmp).ok();
+    let saved = unsafe { libc::dup(1) };
+    if let Some(file) = &file {
+        unsafe { libc::dup2(file.as_raw_fd(), 1) };
+    }
+    let r = f();
+    let _ = std::io::stdout().flush();
+    unsafe {
+        libc::dup2(saved, 1);
+        libc::close(saved);
+    }
+    let printed = std::fs::metadata(&tmp).map(|m| m.len()).unwrap_or(0);
+    if printed > 0 {
+        crate::cases::SIDE.with(|s| s.borrow_mut().push_str(&format!("stdout={printed};")));
+    }
+    r
+}
+
+#[derive(serde::Serialize)]
+struct U2MutatorsAndRules<'a> {
+    mutators: Vec<&'a String>,
+    rules: &'a std::collections::HashMap<String, Vec<String>>,
+}
+#[derive(serde::Serialize)]
+struct U2Response<'a> {
+    server_info: &'a gamedig::protocols::unreal2::ServerInfo,
+    mutators_and_rules: U2MutatorsAndRules<'a>,
+    players: &'a gamedig::protocols::unreal2::Players,
+}
+/// the mutators are a HashSet: print them sorted
+pub fn canon_u2(r: &gamedig::protocols::unreal2::Response) -> String {
+    let mut m: Vec<&String> = r.mutators_and_rules.mutators.iter().collect();
+    m.sort_by(|a, b| show_str(a).as_bytes().cmp(show_str(b).as_bytes()));
+    canon(&U2Response {
+        server_info: &r.server_info,
+        mutators_and_rules: U2MutatorsAndRules {
+            mutators: m,
+            rules: &r.mutators_and_rules.rules,
+        },
+        players: &r.players,
+    })
+}
+
+pub fn case_unreal2(rd: &mut Rd) -> R<String> {
+    use gamedig::protocols::unreal2;
+    let port = rd.u16()?;
+    let g = rd_opt(rd, |rd| {
+        let players = rd_toggle(rd)?;
+        let mutators_and_rules = rd_toggle(rd)?;
+        Ok(unreal2::GatheringSettings {
+            players,
+            mutators_and_rules,
+        })
+    })?;
+    let ts = rd_tsettings(rd)?;
+    let script = rd_script(rd)?;
+    let ts = match ts {
+        Ok(t) => t,
+        Err(e) => return Ok(format!("{e}|")),
+    };
+    let g = g.unwrap_or_default();
+    Ok(run_scripted(script, canon_u2, || unreal2::query(&addr(port), &g, ts)))
 }
